@@ -65,6 +65,11 @@ func vsCaptureMainOptions() {
 	ok := false
 	newDefaultOptions = func() *NoKV.Options {
 		captured = NoKV.NewDefaultOptions()
+		// The two size knobs every run overrides anyway (vsOpenWorld) are already
+		// small here, so that this one extra Open/Close does not map 20 value-log
+		// files of 512 MiB each.
+		captured.MemTableSize = 1 << 20
+		captured.ValueLogFileSize = 1 << 20
 		return captured
 	}
 	listen = func(network, address string) (net.Listener, error) {
@@ -136,14 +141,10 @@ func vsOpenWorld(c *sim.Case, res *sim.Result, wrap func(redisBackend) redisBack
 	if vsOptSource != "main" {
 		res.Probes["options_fallback"]++
 	}
-	// Size knobs of the case (none of them is read by the gateway's command
-	// paths; they only keep a run cheap). 0 = leave main.go's value.
-	if v := c.CfgInt("memtable_size", 1<<20); v > 0 {
-		w.opt.MemTableSize = v // main.go: 64 MiB, zeroed at every Open
-	}
-	if v := c.CfgInt("vlog_file_size", 1<<20); v > 0 {
-		w.opt.ValueLogFileSize = int(v) // main.go: 0 = 20 preallocated 512 MiB mmap files
-	}
+	// The only two deviations from main.go's options: size knobs that none of
+	// the gateway's command paths reads; they keep a run cheap.
+	w.opt.MemTableSize = c.CfgInt("memtable_size", 1<<20)          // main.go: 64 MiB
+	w.opt.ValueLogFileSize = int(c.CfgInt("vlog_file_size", 1<<20)) // main.go: 0 = 20 preallocated 512 MiB mmap files
 	verifhook.Reset()
 	// The compactor start delay is the only math/rand consumer in a run this
 	// small; background compaction has nothing to do with <= a few hundred writes.
